@@ -155,6 +155,16 @@ class C09(Prop):
         kind = rng.choice(KINDS)
         if kind in ('ct_on', 'ct_off') and rng.random() < 0.12:
             return self.gen_sibling(rng, kind)
+        if rng.random() < 0.06:
+            # C06's shared-term template: a named arithmetic sub-formula used in a predicate that also mentions a
+            # variable of the other io class, and again in a predicate of its own; interface-aware semantics
+            from rtverif.props.c06 import PROP as C06P
+            c6 = C06P.gen_shared_term(rng)
+            case = {'kind': c6['kind'], 'top': c6['modular']['top'], 'defs': [tuple(d) for d in c6['modular']['defs']],
+                    'consts': [], 'style': rng.choice(['add_sub_spec', 'one-text']), 'declare_names': True,
+                    'ia': [c6['sem'], c6['io']]}
+            case['signals' if c6['kind'].startswith('ct') else 'data'] = c6.get('signals') or c6.get('data')
+            return case
         f, top, defs, consts = gen_modular(rng, kind)
         names = lang.variables(f) or ['x']
         case = {'kind': kind, 'top': lang.to_jsonable(top), 'defs': [(nm, lang.to_jsonable(g)) for nm, g in defs],
@@ -162,6 +172,10 @@ class C09(Prop):
                 'declare_names': rng.random() < 0.8}
         if rng.random() < 0.15 and any(g[1] is not None for g in lang.walk(f)):
             case['bound_consts'] = True
+        elif rng.random() < 0.15 and kind in ('dt_off', 'dt_on', 'ct_off', 'ct_on'):
+            # an interface-aware semantics with a random io assignment, on the modular and on the inlined form
+            from rtverif.props.c06 import SEMS
+            case['ia'] = [rng.choice(SEMS[1:]), dict((k, rng.choice(['input', 'output'])) for k in names)]
         if kind.startswith('ct'):
             case['signals'] = sig_text(lang.gen_signals(rng, names) if kind == 'ct_off' else
                                        dict((k, s) for k, s in self._aligned(rng, names).items()))
@@ -215,12 +229,18 @@ class C09(Prop):
         v.info['kind:' + kind] = 1
         v.info['multi-ref'] = 1 if any(c >= 2 for c in refs.values()) else 0
         v.info['consts'] = 1 if case['consts'] else 0
+        iasd = {}
         try:
+            if case.get('ia'):
+                from rtverif.props.c06 import hook_dense, hook_discrete
+                iasd = {'semantics': case['ia'][0], 'io': case['ia'][1]}
+                v.info['class:interface-aware'] = 1
             if dense:
                 sig = sig_from_json(case['signals'])
-                exp = ref_dense.evaluate(f, sig)
+                exp = ref_dense.evaluate(f, sig, pred_hook=hook_dense(*case['ia']) if case.get('ia') else None)
             else:
-                exp = refd.evaluate(f, case['data'], len(case['data'][names[0]]))
+                exp = refd.evaluate(f, case['data'], len(case['data'][names[0]]),
+                                    pred_hook=hook_discrete(*case['ia']) if case.get('ia') else None)
         except refd.Undefined:
             v.skip = 'reference undefined (domain error)'
             return v
@@ -229,11 +249,11 @@ class C09(Prop):
             itext = lang.to_text(f, ivl_printer=inlined_ivl) if case.get('bound_consts') else text_of(case, f)
             if case.get('bound_consts'):
                 v.info['class:bound-constants'] = 1
-            inl = self.execute(kind, {'text': itext, 'vars': names}, names, case)
+            inl = self.execute(kind, dict({'text': itext, 'vars': names}, **iasd), names, case)
         except Exception as e:
             v.skip = 'inlined form raised %s' % type(e).__name__
             return v
-        sd = modular_sd(case, names)
+        sd = dict(modular_sd(case, names), **iasd)
         try:
             mod = self.execute(kind, sd, names, case)
         except Exception as e:
